@@ -259,6 +259,11 @@ func (m *Muxer) validate() error {
 	// Check that frame dimensions fit within the canvas.
 	canvasW, canvasH := m.canvasSize()
 	for i, f := range m.frames {
+		if f.opts.OffsetX < 0 || f.opts.OffsetY < 0 {
+			// The ANMF offset fields are unsigned 24-bit values: a negative offset
+			// cannot be represented and would be written as a huge one.
+			return fmt.Errorf("%w: frame %d has a negative offset (%d,%d)", ErrMuxValidation, i, f.opts.OffsetX, f.opts.OffsetY)
+		}
 		fw, fh := frameDimensions(f.data)
 		if fw == 0 || fh == 0 {
 			continue // could not parse dimensions, skip check
